@@ -2,7 +2,7 @@
     tuple once; and the answers of a call are the candidates unifiable with its
     arguments, so that instantiating a call further selects a subset. *)
 From Coq Require Import ZArith Bool List String Lia FMapPositive.
-From PV Require Import Model.Term Model.Unify Model.Rel Proofs.Unify.
+From PV Require Import Model.Term Model.Unify Model.Rel Proofs.Unify Proofs.UnifySound.
 Import ListNotations.
 Open Scope Z_scope.
 
@@ -162,12 +162,13 @@ Proof. induction l as [|x l IH]; cbn [selects map fst]; [reflexivity|]. rewrite 
 (** ** the answers of a call are the candidates unifiable with the arguments *)
 Definition unifiable (args c : list term) : Prop := exists s, map (apply s) args = map (apply s) c.
 
-(** kept candidates come with an answer through which every unifier of the
+(** kept candidates are unifiable with the arguments and come with an answer through which every unifier of the
     arguments and the candidate factors (it is a most general common instance);
     dropped candidates are not unifiable with the arguments *)
 Inductive selected (args : list term) : list (list term) -> list (list term) -> Prop :=
 | sel_nil : selected args [] []
 | sel_keep c cs a ans :
+    unifiable args c ->
     (forall s, map (apply s) args = map (apply s) c -> map (apply s) a = map (apply s) c) ->
     selected args cs ans -> selected args (c :: cs) (a :: ans)
 | sel_drop c cs ans : ~ unifiable args c -> selected args cs ans -> selected args (c :: cs) ans.
@@ -182,21 +183,24 @@ Qed.
 Lemma empty_sat s : sat s empty_env.
 Proof. intros v t H. unfold lookup, empty_env in H. rewrite PositiveMap.gempty in H. discriminate. Qed.
 
-(** PARTIAL: the statement lacks "a kept candidate is unifiable with the arguments"
-    (that the bindings computed by a successful unification have a solution needs
-    the acyclicity invariant of envs, which is not proved); on the implementation
-    side that half is what the comparison of every answer with the relation checks. *)
+(** a kept candidate is unifiable with the arguments: the bindings computed by a
+    successful unification have a solution (Proofs/UnifySound.v, the solved-form
+    invariant of envs) *)
 Lemma one_candidate fuel args c :
   match unify_f fuel false empty_env (Cmp "$" args) (Cmp "$" c) with
   | UOk e => poisoned e = false ->
+             unifiable args c /\
              forall s, map (apply s) args = map (apply s) c -> map (apply s) (map (walk e) args) = map (apply s) c
   | UFail => ~ unifiable args c
   | UStuck => True
   end.
 Proof.
   pose proof (unify_mgu fuel empty_env (Cmp "$" args) (Cmp "$" c)) as Hm.
+  pose proof (unify_ok_unifiable fuel (Cmp "$" args) (Cmp "$" c)) as Hu.
   destruct (unify_f fuel false empty_env (Cmp "$" args) (Cmp "$" c)) as [e| |]; [| |exact I].
-  - intros Ep s Hs. destruct (Hm Ep) as [_ Hsat].
+  - intros Ep. split.
+    { destruct (Hu e eq_refl Ep) as (s & _ & Heq). exists s. cbn [apply] in Heq. injection Heq as Heq. exact Heq. }
+    intros s Hs. destruct (Hm Ep) as [_ Hsat].
     assert (Hse : sat s e) by (apply Hsat; split; [apply empty_sat | cbn [apply]; f_equal; exact Hs]).
     rewrite map_map. rewrite <- Hs. apply map_ext. intros a. apply walk_f_apply. exact Hse.
   - intros (s & Hs). apply (Hm s (empty_sat s)). cbn [apply]. f_equal. exact Hs.
@@ -205,13 +209,14 @@ Qed.
 Lemma one_candidate' args c :
   match unify empty_env (Cmp "$" args) (Cmp "$" c) with
   | UOk e => poisoned e = false ->
+             unifiable args c /\
              forall s, map (apply s) args = map (apply s) c -> map (apply s) (map (walk e) args) = map (apply s) c
   | UFail => ~ unifiable args c
   | UStuck => True
   end.
 Proof. exact (one_candidate UFUEL args c). Qed.
 
-Theorem answers_selected_partial name args cs ans :
+Theorem answers_selected name args cs ans :
   cands name args = Some cs -> answers name args = Some ans -> selected args cs ans.
 Proof.
   unfold answers. intros ->. revert ans. induction cs as [|c cs IH]; intros ans H; cbn [fold_right] in H.
@@ -220,7 +225,7 @@ Proof.
     pose proof (one_candidate' args c) as Hc.
     destruct (unify empty_env (Cmp "$" args) (Cmp "$" c)) as [e| |]; [| |discriminate].
     + destruct (poisoned e) eqn:Ep; [discriminate|]. injection H as <-.
-      apply sel_keep; [exact (Hc eq_refl) | apply IH; reflexivity].
+      destruct (Hc eq_refl) as [Hun Hmg]. apply sel_keep; [exact Hun | exact Hmg | apply IH; reflexivity].
     + injection H as <-. apply sel_drop; [exact Hc | apply IH; reflexivity].
 Qed.
 
